@@ -594,12 +594,29 @@ fn eval(c: &Case) -> Option<String> {
     match r { Ok(x) => x, Err(e) => { let msg = e.downcast_ref::<String>().cloned().or_else(|| e.downcast_ref::<&str>().map(|s| s.to_string())).unwrap_or_default();
         if c.prop == "C15" || c.prop == "C08" { Some(format!("panic: {msg}")) } else { None } } }
 }
+/// the hand-written `Default` impls are one more constructor: a default-constructed view must behave like `new(Echo::new())`
+fn check_default_ctor(kind: &str, h: &[f64]) -> Option<String> {
+    let mut a: Dyn = match kind {
+        "drawdown" => d(<Drawdown<f64, Echo<f64>> as Default>::default()),
+        "ln_return" => d(<LnReturn<f64, Echo<f64>> as Default>::default()),
+        "welford_rolling" => d(<WelfordRolling<f64, Echo<f64>> as Default>::default()),
+        _ => return None,
+    };
+    let mut b = make(kind, echo(), 1);
+    if a.last().map(f64::to_bits) != b.last().map(f64::to_bits) { return Some("default() and new(Echo::new()) report different values before any update".into()); }
+    for (t, &x) in h.iter().enumerate() {
+        a.update(x); b.update(x);
+        if a.last().map(f64::to_bits) != b.last().map(f64::to_bits) { return Some(format!("step {t}: default() reports {:?}, new(Echo::new()) reports {:?}", a.last(), b.last())); }
+    }
+    None
+}
 fn eval_inner(c: &Case) -> Option<String> {
     let (k, n, h) = (c.view.as_str(), c.n, &c.stream[..]);
     match c.prop.as_str() {
         "C14" if !BINARY.contains(&k) => check_chain(k, &c.inner, n, h).or_else(|| check_functional_over(k, &c.inner, n, h)),
         "C01" | "C14" => if BINARY.contains(&k) { let (x, y) = c.inner.split_once('+').unwrap(); check_chain2(k, x, y, n, h) } else { check_chain(k, &c.inner, n, h) },
-        "C02" | "C05" | "C06" | "C11" | "C13" => check_functional_over(k, &c.inner, n, h),
+        "C13" => check_default_ctor(k, h).or_else(|| check_functional_over(k, &c.inner, n, h)),
+        "C02" | "C05" | "C06" | "C11" => check_functional_over(k, &c.inner, n, h),
         "C03" => check_finite_memory(k, n, h, &c.stream2, &c.stream2[c.stream2.len().saturating_sub(c.b as usize)..]).or(None),
         "C04" => check_functional_over(k, &c.inner, n, h).or_else(|| check_average(k, n, h, c.a, c.b)),
         "C07" => check_range(k, n, h),
